@@ -19,3 +19,6 @@ for d in refactorings/$PAT/; do
   echo "$line"
   git -C /repo reset -q --hard && git -C /repo clean -fdq src
 done
+
+# the runs above rewrote evidence/*.json from a PATCHED tree: put the committed evidence (clean tree) back
+git -C /verif checkout -q -- evidence 2>/dev/null || true
